@@ -81,6 +81,7 @@ public:
     }
     for (int i = 0; i < 4; ++i)
       n.childnotready[i] = n.havechild[i];
+    GALOIS_VERIF_POINT(BAR_MCS_ARRIVED);
     if (n.parentpointer) {
       // FIXME: make sure the compiler doesn't do a RMW because of the as-if
       // rule
@@ -92,6 +93,7 @@ public:
     // signal children in wakeup tree
     if (n.childpointers[0])
       *n.childpointers[0] = n.sense;
+    GALOIS_VERIF_POINT(BAR_MCS_WAKE);
     if (n.childpointers[1])
       *n.childpointers[1] = n.sense;
     n.sense = !n.sense;
